@@ -532,13 +532,10 @@ func checkAckArithmetic(c *Ctx) {
 				if !isA || !typeIs(a.Type(), "packet/chat", "ChatAcknowledgement") {
 					return
 				}
+				// on every path to the acknowledgement the returned count is known to be >= 1 (any spelling of the test)
 				g, ns := MustCross(a, func(e Edge, cond ssa.Value, truth bool) bool {
-					bo, isB := cond.(*ssa.BinOp)
-					if !isB || strip(bo.X) != ssa.Value(accCall) {
-						return false
-					}
-					k, isK := constInt(bo.Y)
-					return isK && k == 0 && bo.Op == token.GTR && truth
+					r := RangeOnEdge(e, func(v ssa.Value) bool { return strip(v) == ssa.Value(accCall) })
+					return r.HasLo() && r.Lo >= 1
 				})
 				carries := false
 				for _, ref := range *a.Referrers() {
